@@ -41,6 +41,20 @@ def replay(col, case):
         col.count(1)
         if not allclose(got, want, 1e-9):
             col.violation(label + "-wrong-value", dict(rep, expected=want.tolist(), observed=got.tolist()))
+    # a single-precision (or integer-typed) Jacobian with double-precision covariances: the arithmetic stays in double precision
+    for dtype in ("float32", "int64"):
+        Kt = K.astype(dtype)
+        for label, fn, want in (("error_covariance_matrix", lambda: error_covariance_matrix(Kt, Sa, Sy), S),
+                                ("retrieval_gain_matrix", lambda: retrieval_gain_matrix(Kt, Sa, Sy), G),
+                                ("averaging_kernel_matrix", lambda: averaging_kernel_matrix(Kt, Sa, Sy), A)):
+            try:
+                got = np.asarray(fn(), dtype=float)
+            except Exception as ex:
+                col.violation(label + "-raises-" + type(ex).__name__ + "-" + dtype + "-jacobian", dict(rep, observed=repr(ex)[:200]))
+                continue
+            col.count(1)
+            if not allclose(got, want, 1e-9):
+                col.violation(label + "-wrong-value-" + dtype + "-jacobian", dict(rep, expected=want.tolist(), observed=got.tolist()))
     # both covariances at a tiny absolute scale (2^-40, exact in binary): S scales, G and A do not (ScaleLaw)
     c = 2.0 ** -40
     for label, fn, want in (("error_covariance_matrix", lambda: error_covariance_matrix(K, Sa * c, Sy * c), S * c),
